@@ -682,6 +682,7 @@ package apd
 //@   ensures [fits] old(finwf(c, x)) && r == c.Rounding && !hassys(ret) ==> fits(c, d)
 //@   ensures [formkeep] d.Form == Finite ==> old(x.Form) == Finite
 //@   ensures [shape] d.Negative == old(x.Negative) && (d.Form == old(x.Form) || d.Form == Infinite)
+//@   ensures [p0] !disableIfPrecisionZero && c.Precision == 0 && ctxsane(c) && r == c.Rounding && old(x.Form == Finite && inv(x) && inrange(x) && val(x.Coeff) != 0) && old(x.Exponent) + nd10(old(val(x.Coeff))) - 1 >= c.MinExponent && nd10(old(val(x.Coeff))) <= 100000 && old(x.Exponent) + nd10(old(val(x.Coeff))) <= c.MaxExponent && old(x.Exponent) + nd10(old(val(x.Coeff))) >= -100000 ==> (d.Form == Finite && val(d.Coeff) == RND(r, old(x.Negative), old(val(x.Coeff)), nd10(old(val(x.Coeff)))) && d.Exponent == old(x.Exponent) + nd10(old(val(x.Coeff))) && has(ret, Inexact) && has(ret, Rounded) && only(ret, Inexact | Rounded | Clamped))
 //@   ensures [zero] old(finwf(c, x)) && r == c.Rounding && old(val(x.Coeff)) == 0 ==> RZero(c, old(x.Negative), old(x.Exponent), d, ret)
 //@   ensures [sub] old(finwf(c, x)) && r == c.Rounding && old(val(x.Coeff)) != 0 && old(x.Exponent) + nd10(old(val(x.Coeff))) - 1 < c.MinExponent ==> RSub(c, old(x.Negative), old(val(x.Coeff)), old(x.Exponent), d, ret)
 //@   ensures [sys] old(finwf(c, x)) && r == c.Rounding && old(val(x.Coeff)) != 0 && old(x.Exponent) + nd10(old(val(x.Coeff))) - 1 >= c.MinExponent ==> (has(ret, SystemOverflow) <==> NSYS(c, old(x.Negative), old(val(x.Coeff)), old(x.Exponent))) && !has(ret, SystemUnderflow)
@@ -1445,6 +1446,10 @@ package apd
 //@   requires writable(d) && inv(v)
 //@   assigns d
 //@   ensures [inv] inv(d) && closed(ret) && (d.Form == old(v.Form) || d.Form == Infinite) && d.Negative == old(v.Negative)
+//@   hint pow10_add(nd10(val(v.Coeff)), exp - v.Exponent - nd10(val(v.Coeff)))
+//@   hint div_lt(val(v.Coeff), pow10(exp - v.Exponent), 1)
+//@   hint nd10(val(v.Coeff)) < exp - v.Exponent ==> 10 * pow10(nd10(val(v.Coeff))) <= pow10(exp - v.Exponent)
+//@   ensures [down] ctxsane(c) && old(v.Form == Finite && inrange(v)) && -100000 <= exp && exp <= 100000 && exp > old(v.Exponent) && nd10(old(val(v.Coeff))) - (exp - old(v.Exponent)) <= c.MaxExponent && c.MaxExponent >= 0 ==> (val(d.Coeff) == RND(c.Rounding, old(v.Negative), old(val(v.Coeff)), exp - old(v.Exponent)) && d.Exponent == exp && d.Form == Finite && (has(ret, Inexact) <==> RR(old(val(v.Coeff)), exp - old(v.Exponent)) != 0) && (has(ret, Inexact) ==> has(ret, Rounded)) && only(ret, Inexact | Rounded | Clamped))
 //@   ensures [up] old(inrange(v)) && -100000 <= exp && exp <= 100000 && exp <= old(v.Exponent) && old(v.Exponent) - exp <= 100000 ==> (val(d.Coeff) == old(val(v.Coeff)) * pow10(old(v.Exponent) - exp) && d.Exponent == exp && ret == 0)
 
 //@ func (*Context).toIntegral
